@@ -201,12 +201,19 @@ func c19Trim(s string) string {
 
 func runC19(ctx *vh.Ctx) error {
 	ctx.Res.Rule = "random graphs (pregel/dag, fan-out copies, fan-in merges, single and multi branches incl. branches selecting nothing) whose streaming nodes emit through unbuffered Pipes from goroutines with blocking sends; Stream/Transform called, output read to the end / a prefix / not at all, then closed; preconditions of the property (run completes, nothing ready besides END at return, every output has a consumer) decided on the Lean model; non-trivial = >=1 goroutine producer and (fan-in | branch | cycle | >=3 nodes); distinct by canonical case"
+	ctx.Res.Rule += " || workflow family: a streaming producer (unbuffered pipe, goroutine) whose successors are data+control / data-only / control-only / branch ends, value and prefix-reading stream conditions, single and multi-way; non-trivial = a branch or >=2 successor kinds"
 	if ctx.Replay != nil {
+		if done, err := c19wReplay(ctx, ctx.Replay); done {
+			return err
+		}
 		var c c19Case
 		if err := json.Unmarshal(ctx.Replay, &c); err != nil {
 			return err
 		}
 		return c19One(ctx, &c)
+	}
+	if err := c19wRun(ctx); err != nil {
+		return err
 	}
 	n := ctx.N(900, 20000)
 	for i := 0; i < n && ctx.TimeLeft(); i++ {
